@@ -21,6 +21,9 @@ class PlanJoinTSPredictorQuery:
 
         join = query.from_table
         join_left = join.left
+        if self.planner.is_predictor(join_left):
+            # the predictor is written first: the sub-select is on the right side
+            join_left = join.right
 
         # dbt query.
 
